@@ -30,6 +30,9 @@ func program(seed uint64, stream string, idx int) (*vg.Node, vg.WriterMode) {
 		return l[idx%len(l)], vg.WriterMode(idx % int(vg.NumWriterModes))
 	case "shape":
 		return vg.Shape(r, idx), mode
+	case "grow":
+		modes := []vg.WriterMode{vg.WFresh, vg.WTinyBuffer, vg.WFreshBuffer, vg.WPooled}
+		return vg.GrowShape(idx % vg.GrowShapes), modes[(idx/vg.GrowShapes)%len(modes)]
 	default: // "rand"
 		cfg := vg.DefaultCfg()
 		switch r.Intn(20) {
